@@ -8,6 +8,7 @@
 #include <limits.h>
 #include <unistd.h>
 #include <sys/wait.h>
+#include <dlfcn.h>
 
 extern int next_backend_desc;
 extern int *log_table;
@@ -15,25 +16,30 @@ struct blist { struct ec_backend *slh_first; };
 extern struct blist active_instances;
 
 /* ------------------------------------------------------------ configurations */
-struct cfg { const char *name; int be, k, m, hd; int ok; };
+struct cfg { const char *name; int be, k, m, hd; int ok; int w; };
 static const struct cfg CFG[] = {
     { "rs21", EC_BACKEND_LIBERASURECODE_RS_VAND, 2, 1, 1, 1 },
     { "xor333", EC_BACKEND_FLAT_XOR_HD, 3, 3, 3, 1 },
     { "rs32", EC_BACKEND_LIBERASURECODE_RS_VAND, 3, 2, 2, 1 },
     { "isav21", EC_BACKEND_ISA_L_RS_VAND, 2, 1, 1, 1 },
     { "null21", EC_BACKEND_NULL, 2, 1, 1, 1 },
+    { "xor553", EC_BACKEND_FLAT_XOR_HD, 5, 5, 3, 1 },          /* a second flat-XOR shape: two different tables alive at once */
+    /* creates that must fail: before the backend is asked (shape, arguments), because its library is missing, and inside the
+     * backend's own init after its library was opened (null refuses w = 4) */
     { "badxor423", EC_BACKEND_FLAT_XOR_HD, 4, 2, 3, 0 },
     { "jerasure21", EC_BACKEND_JERASURE_RS_VAND, 2, 1, 1, 0 },
     { "k20m20", EC_BACKEND_LIBERASURECODE_RS_VAND, 20, 20, 20, 0 },
+    { "nullw4", EC_BACKEND_NULL, 2, 1, 1, 0, 4 },
+    { "isaw4", EC_BACKEND_ISA_L_RS_VAND, 2, 1, 1, 0, 4 },
 };
-#define NGOOD 5
-#define NCFG 8
+#define NGOOD 6
+#define NCFG 11
 static uint64_t golden[NGOOD];
 
 static int cfg_create(int c)
 {
     struct ec_args a; memset(&a, 0, sizeof a);
-    a.k = CFG[c].k; a.m = CFG[c].m; a.hd = CFG[c].hd; a.ct = CHKSUM_CRC32;
+    a.k = CFG[c].k; a.m = CFG[c].m; a.hd = CFG[c].hd; a.ct = CHKSUM_CRC32; a.w = CFG[c].w;
     return liberasurecode_instance_create(CFG[c].be, &a);
 }
 
@@ -68,6 +74,14 @@ static void check_registry(const char *after)
             { vh_violation("registry-differs-from-model", "after %s: registry entry %d is (desc %d, backend %d, k %d), model says (desc %d, %s)", after, i, b->idesc, (int)b->common.id, b->args.uargs.k, M.desc[i], CFG[M.cfg[i]].name); return; }
     }
     if (i != M.n) vh_violation("registry-differs-from-model", "after %s: registry holds %d instances, model %d", after, i, M.n);
+    /* the shared library a live instance's operations point into must still be loaded (a surplus dlclose on some other path -
+     * a failed create, another instance's destroy - would unmap it under the survivor) */
+    for (struct ec_backend *b = active_instances.slh_first; b; b = b->link.sle_next) {
+        if (!b->common.soname || !b->common.soname[0]) continue;
+        void *h = dlopen(b->common.soname, RTLD_NOLOAD | RTLD_LAZY);
+        if (!h) vh_violation("live-instance-unusable", "after %s: %s, the library behind live descriptor %d, is no longer loaded", after, b->common.soname, b->idesc);
+        else dlclose(h);
+    }
 }
 
 /* ------------------------------------------------------------ U: use an instance, hash everything it produces */
@@ -88,8 +102,9 @@ static uint64_t use_instance(int desc, int c, int report)
     char *F[32]; for (int i = 0; i < n; i++) { F[i] = i < k ? ed[i] : ep[i - k]; h = mix(h, F[i], fl); }
     /* decode: all present from unaligned copies; first data missing; last data + first parity missing with a duplicate */
     char *copies[32]; for (int i = 0; i < n; i++) { copies[i] = malloc(fl + 1); memcpy(copies[i] + 1, F[i], fl); }
-    struct { int miss[2]; int nmiss; int unaligned; int dup; } ds[3] = { { {0, 0}, 0, 1, 0 }, { {0, 0}, 1, 0, 0 }, { {k - 1, k}, 2, 0, 1 } };
-    for (int t = 0; t < 3; t++) {
+    /* all present (unaligned); first data missing; last data + first parity missing (with a duplicate); two data missing; two parities missing */
+    struct { int miss[2]; int nmiss; int unaligned; int dup; } ds[5] = { { {0, 0}, 0, 1, 0 }, { {0, 0}, 1, 0, 0 }, { {k - 1, k}, 2, 0, 1 }, { {0, k > 1 ? 1 : 0}, k > 1 ? 2 : 1, 1, 0 }, { {k, m > 1 ? k + 1 : k}, m > 1 ? 2 : 1, 0, 0 } };
+    for (int t = 0; t < 5; t++) {
         if (ds[t].nmiss > m || (g->be == EC_BACKEND_FLAT_XOR_HD && ds[t].nmiss >= g->hd)) continue;
         char *list[40]; int nf = 0;
         for (int i = 0; i < n; i++) { int skip = 0; for (int j = 0; j < ds[t].nmiss; j++) if (ds[t].miss[j] == i) skip = 1; if (!skip) list[nf++] = ds[t].unaligned ? copies[i] + 1 : F[i]; }
@@ -187,7 +202,7 @@ static void op_destroy(int slot, const char *when)
     check_registry(when);
     use_dead(d, when);
 }
-#define NKIND 12
+#define NKIND 14
 static void op_error_exit(int slot, int kind, const char *when)
 {
     int desc = M.desc[slot]; const struct cfg *g = &CFG[M.cfg[slot]]; int k = g->k, n = g->k + g->m;
@@ -225,6 +240,16 @@ static void op_error_exit(int slot, int kind, const char *when)
         lc0 = ledger_count(); lb0 = ledger_bytes();
         rc = liberasurecode_decode(desc, F, k > 1 ? k - 1 : 0, fl, 0, &o2, &ol2);
         if (rc >= 0 && k == 1) rc = -1;
+        break; }
+    /* 12/13: the slow path has already allocated a replacement for the missing first fragment when it meets a (re-sealed) header
+     * whose original length does not fit in an int: the documented bad-header error, and the replacement must be released */
+    case 12: case 13: {
+        memcpy(bad, F[1], fl); bad[12] = bad[13] = bad[14] = 0; bad[15] = 0x80; bad[16] = bad[17] = bad[18] = bad[19] = 0;
+        { uint32_t c = crc_std(bad, 59); put_le32((uint8_t *)bad + 67, c); }
+        int nf = 0; for (int i = 1; i < n; i++) list[nf++] = i == 1 ? bad : F[i];
+        if (kind == 12) rc = liberasurecode_decode(desc, list, nf, fl, 0, &out, &ol);
+        else rc = liberasurecode_reconstruct_fragment(desc, list, nf, fl, 0, ob);
+        if (g->be == EC_BACKEND_NULL && rc >= 0) rc = -1;
         break; }
     /* 11: the first result is still in use when the rejected call is made with the same variables; it is released afterwards */
     case 11: {
@@ -318,7 +343,8 @@ static void child_transition(void *p)
     char after[768]; observe(after, sizeof after);
     if ((t->op == 3 || t->op == 4 || t->op == 6 || t->op == 0) && strcmp(before, after)) vh_violation("self-loop-changed-state", "operation %d must not change the observable state: before {%s} after {%s}", t->op, before, after);
     snprintf(child_out, sizeof child_out, "%s", after);
-    if (t->op == 0 || t->op == 3) { teardown_and_check("teardown"); }
+    /* whatever the transition was, destroying everything afterwards must work and leave nothing behind */
+    teardown_and_check("teardown");
 }
 
 /* cache of canonical observations, per executor */
@@ -395,14 +421,14 @@ static int seq_step(char L, int pos)
 {
     char when[32]; snprintf(when, sizeof when, "step%d:%c", pos, L);
     switch (L) {
-    case 'a': case 'b': case 'c': if (M.n >= 4) return 0; op_create(L == 'a' ? 0 : L == 'b' ? 1 : 3, when); return 1;
+    case 'a': case 'b': case 'c': if (M.n >= 4) return 0; op_create(L == 'a' ? 0 : L == 'b' ? 1 : (pos % 3) == 0 ? 3 : (pos % 3) == 1 ? 5 : 4, when); return 1;
     case 'd': if (!M.n) { use_dead(0, when); return 1; } op_destroy(M.n - 1, when); return 1;
     case 'e': if (!M.n) { use_dead(-1, when); return 1; } op_destroy(0, when); return 1;
     case 'u': if (!M.n) return 0; use_and_compare(0, when); return 1;
     case 'v': if (M.n < 2) return 0; use_and_compare(M.n - 1, when); return 1;
     case 'x': if (!M.n) return 0; op_error_exit(0, pos % 7, when); return 1;
-    case 'y': if (!M.n) return 0; op_error_exit(M.n - 1, 7 + pos % 5, when); return 1;
-    case 'f': op_create(5 + pos % 3, when); if (M.ndead) use_dead(M.dead[M.ndead - 1], when); return 1;
+    case 'y': if (!M.n) return 0; op_error_exit(M.n - 1, 7 + pos % 7, when); return 1;
+    case 'f': op_create(NGOOD + pos % (NCFG - NGOOD), when); if (M.ndead) use_dead(M.dead[M.ndead - 1], when); return 1;
     }
     return 0;
 }
